@@ -25,6 +25,7 @@ def run(chk, program, tier):
     K.fault_path(chk, program)
     K.retry_rule(chk, program)
     K.one_rx(chk, program)
+    K.lock_window(chk, program)
     K.yield_rule(chk, program)
     K.buf_reset(chk, program)
     # the scan loop inside the buffering _receive_impl contains no await on most paths: it must consume a packet on every iteration (weaker form of C20 BUF-PROGRESS)
